@@ -188,18 +188,36 @@ func (w *world) window(class string) (time.Time, time.Time, error) {
 	return time.Time{}, time.Time{}, fmt.Errorf("unknown window class %q", class)
 }
 
-func usages(class string) ([]x509.ExtKeyUsage, error) {
+// purposes crypto/x509 has no name for: they end up in Certificate.UnknownExtKeyUsage
+var unknownEKUs = []asn1.ObjectIdentifier{
+	{1, 3, 6, 1, 4, 1, 311, 20, 2, 2}, // Microsoft smart card logon
+	{1, 3, 6, 1, 4, 1, 99999, 1, 7},   // a private arc
+	{1, 3, 6, 1, 5, 5, 7, 3, 17},      // id-kp-ipsecIKE
+}
+
+func (w *world) usages(class string) ([]x509.ExtKeyUsage, []asn1.ObjectIdentifier, error) {
+	unk := []asn1.ObjectIdentifier{unknownEKUs[w.rng.Intn(len(unknownEKUs))]}
 	switch class {
 	case "client":
-		return []x509.ExtKeyUsage{x509.ExtKeyUsageClientAuth}, nil
+		return []x509.ExtKeyUsage{x509.ExtKeyUsageClientAuth}, nil, nil
 	case "server":
-		return []x509.ExtKeyUsage{x509.ExtKeyUsageServerAuth}, nil
+		return []x509.ExtKeyUsage{x509.ExtKeyUsageServerAuth}, nil, nil
 	case "both":
-		return []x509.ExtKeyUsage{x509.ExtKeyUsageClientAuth, x509.ExtKeyUsageServerAuth}, nil
+		return []x509.ExtKeyUsage{x509.ExtKeyUsageClientAuth, x509.ExtKeyUsageServerAuth}, nil, nil
+	case "any":
+		return []x509.ExtKeyUsage{x509.ExtKeyUsageAny}, nil, nil
+	case "code":
+		return []x509.ExtKeyUsage{x509.ExtKeyUsageCodeSigning}, nil, nil
 	case "none":
-		return nil, nil
+		return nil, nil, nil
+	case "unknown":
+		return nil, unk, nil
+	case "clientUnk":
+		return []x509.ExtKeyUsage{x509.ExtKeyUsageClientAuth}, unk, nil
+	case "serverUnk":
+		return []x509.ExtKeyUsage{x509.ExtKeyUsageServerAuth}, unk, nil
 	}
-	return nil, fmt.Errorf("unknown usage class %q", class)
+	return nil, nil, fmt.Errorf("unknown usage class %q", class)
 }
 
 // makeCert builds a real DER certificate the way akash clients do (testutil/cert.go, x/cert/utils): ECDSA P-256,
@@ -213,7 +231,7 @@ func (w *world) makeCert(cn, firstCN, issuerCN string, serial *big.Int, key *ecd
 	if err != nil {
 		return nil, err
 	}
-	eku, err := usages(usage)
+	eku, ueku, err := w.usages(usage)
 	if err != nil {
 		return nil, err
 	}
@@ -227,6 +245,7 @@ func (w *world) makeCert(cn, firstCN, issuerCN string, serial *big.Int, key *ecd
 		NotAfter:              na,
 		KeyUsage:              x509.KeyUsageDataEncipherment | x509.KeyUsageKeyEncipherment,
 		ExtKeyUsage:           eku,
+		UnknownExtKeyUsage:    ueku,
 		BasicConstraintsValid: true,
 		IPAddresses:           ips,
 	}
